@@ -11,6 +11,10 @@ pub mod c08;
 pub mod c12;
 pub mod c13;
 pub mod c14;
+pub mod c15;
+pub mod c16;
+pub mod c17;
+pub mod c18;
 
 pub trait Prop {
     fn id(&self) -> &'static str;
@@ -55,7 +59,7 @@ pub trait Prop {
 }
 
 pub fn all() -> Vec<Box<dyn Prop>> {
-    vec![Box::new(c03::C03), Box::new(c04::C04), Box::new(c07::C07), Box::new(c08::C08), Box::new(c12::C12), Box::new(c13::C13), Box::new(c14::C14)]
+    vec![Box::new(c03::C03), Box::new(c04::C04), Box::new(c07::C07), Box::new(c08::C08), Box::new(c12::C12), Box::new(c13::C13), Box::new(c14::C14), Box::new(c15::C15), Box::new(c16::C16), Box::new(c17::C17), Box::new(c18::C18)]
 }
 
 pub fn by_id(id: &str) -> Option<Box<dyn Prop>> {
